@@ -37,6 +37,12 @@ def _configs(fs, rng, quick):
             {'t': 'fixed', 'n': 9, 'cls': 'click'}, {'t': 'fixed', 'n': 24, 'cls': 'chirp'}, {'t': 'fixed', 'n': 16, 'cls': 'blclick'},
             {'t': 'gate', 'start': 2, 'dur': 12, 'in': {'t': 'fixed', 'n': 24, 'cls': 'chirp'}},
             {'t': 'gate', 'start': 4, 'dur': 6, 'in': {'t': 'fixed', 'n': 20}},
+            # a FINITE input that runs out before the gate closes: the gate's own count decides completion
+            {'t': 'gate', 'start': 2, 'dur': 20, 'in': {'t': 'fixed', 'n': 9}},
+            {'t': 'gate', 'start': 0, 'dur': 30, 'in': {'t': 'fixed', 'n': 17}},
+            {'t': 'env', 'window': 'hann', 'start': 3, 'dur': 24, 'rise': 4, 'in': {'t': 'fixed', 'n': 7}},
+            {'t': 'env', 'window': 'cosine-squared', 'start': 0, 'dur': 40, 'rise': 5,
+             'in': {'t': 'repeat', 'n': 2, 'skip': 0, 'rate': fs / 9.0, 'delay': 0.0, 'in': {'t': 'fixed', 'n': 9}}},
             {'t': 'repeat', 'n': 3, 'skip': 1, 'rate': fs / 12.0, 'delay': 2 / fs,
              'in': {'t': 'env', 'window': 'cosine-squared', 'start': 0, 'dur': 8, 'rise': 2, 'in': one}},
             {'t': 'repeat', 'n': 2, 'skip': 0, 'rate': fs / 9.0, 'delay': 0.0, 'in': {'t': 'fixed', 'n': 9}},
